@@ -231,6 +231,11 @@ def _gearbox(ctx):
                     "Status(masters[i]).ongoing; a registered request lets the grant move under a beat that is being offered", min_sites=2)
     from .c16 import arbiter_requests
     arbiter_requests(ctx, "S15")
+    ctx.rule("S16", "stream.ClockDomainCrossing: every clocked stage runs in the domain of the stream it carries (same-domain buffer renamed "
+                    "onto cd_from, FIFO sides onto cd_from / cd_to): a buffer register clocked by `sys` under a stream of another domain "
+                    "changes the offered token while valid & ~ready", min_sites=3)
+    from .c05 import crossing_stage_domains
+    crossing_stage_domains(ctx, "S16")
     # position counters wrap explicitly at their last value and the declared width holds that value for every ratio: a counter that
     # cannot reach ratio - 1 never completes a word -- the sink is never accepted again (livelock), whatever producer and consumer do
     for cls_, reg_ in (("_UpConverter", "demux"), ("_DownConverter", "mux"), ("Pack", "demux"), ("Unpack", "mux"),
